@@ -26,7 +26,10 @@ def run_case(run, drv, files, pl, single, via_cli, tag):
                           "-o", out, spelled])
                 raw = open(out, "rb").read()
             else:
-                raw = impl.create("v1", spelled, out, piece_length=pl, align=True, progress=prog)
+                # alignment requested by any truthy value means alignment
+                case["align_value"] = repr(run.rng.choice([True, True, 1, "yes", "true", 2]))
+                raw = impl.create("v1", spelled, out, piece_length=pl, align=eval(case["align_value"]),
+                                  progress=prog)
         except Exception as exc:
             run.fail("impl-vs-spec", case, {"raised": repr(exc)})
             return
